@@ -94,40 +94,101 @@ def nonnull(leaf):
     return True
 
 
-GATES = [  # (fn suffix, count symbol, minimum K, component)
-    ('AggValidBasic::vsum', 'n', 1), ('AggValidBasic::vmean', 'n', 1),
-    ('AggValidBasic::vmean_var', 'n', 2), ('AggValidBasic::vskew', 'n', 3),
-    ('AggValidExt::vkurt', 'n', 4), ('AggValidBasic::vcov', 'n', 2),
-    ('AggValidBasic::vcorr_pearson', 'n', 2), ('AggValidExt::n_sum_filter', 'n', 1),
-    ('AggValidExt::vpercentile_of', 'total_count', 1),
+GATES = [  # (fn suffix, minimum K)
+    ('AggValidBasic::vsum', 1), ('AggValidBasic::vmean', 1),
+    ('AggValidBasic::vmean_var', 2), ('AggValidBasic::vskew', 3),
+    ('AggValidExt::vkurt', 4), ('AggValidBasic::vcov', 2),
+    ('AggValidBasic::vcorr_pearson', 2), ('AggValidExt::n_sum_filter', 1),
+    ('AggValidExt::vpercentile_of', 1),
 ]
+COUNT_HELPERS = ('IterBasic::vapply_n',)
+COUNT_SUM_HELPERS = ('IterBasic::vfold_n', 'AggValidExt::n_vsum_filter')
+
+
+def roles(fn):
+    """Names by role for the locals of an aggregation: `n` is the valid count (result of a
+    counting helper, or the `+= 1` accumulator advanced on every non-null element), `sum` the
+    fold result next to it, other accumulators are named after what they accumulate:
+    S[<delta>] for `x += delta`, C[<conds>] for `x += 1` under extra conditions."""
+    names = {}
+    for blk in walk(fn.hir):
+        if blk.get('k') != 'Block':
+            continue
+        for st in blk.get('stmts', []):
+            if st['k'] != 'Let' or 'init' not in st:
+                continue
+            init = peel(st['init'])
+            pat = st['pat']
+            if init.get('k') == 'MethodCall' and callee_is(init, *COUNT_HELPERS) and pat.get('k') == 'Binding':
+                names[pat['local']] = 'n'
+            if init.get('k') == 'MethodCall' and callee_is(init, *COUNT_SUM_HELPERS) and \
+                    pat.get('k') == 'Tuple' and len(pat['ch']) == 2 and \
+                    all(q.get('k') == 'Binding' for q in pat['ch']):
+                names[pat['ch'][0]['local']] = 'n'
+                names[pat['ch'][1]['local']] = 'sum'
+    env0 = N.self_env(fn)
+    for cl in walk(fn.hir):
+        if cl.get('k') != 'Closure':
+            continue
+        t = dtree.closure_table(fn.hir, cl, env0)
+        valid_rows = [r for r in t if any(c.startswith('VALID(a') for c in r[0])
+                      and not any(c.startswith('!VALID(a') or c.startswith('!(VALID(a') for c in r[0])]
+        inner = {b['local'] for x in walk(cl) if x.get('k') == 'Block' for st in x.get('stmts', [])
+                 if st['k'] == 'Let' for b in _pat_binds(st['pat'])}
+        for x in walk(cl['ch'][0]):
+            if x.get('k') != 'AssignOp' or x['op'] != 'AddAssign':
+                continue
+            tg = peel(x['ch'][0])
+            if tg.get('k') != 'Path' or tg.get('res') != 'local' or tg['local'] in inner or \
+                    tg['local'] in names:
+                continue
+            en = dtree.env_at(fn.hir, x, env0)
+            rhs = dtree.canon(x['ch'][1], en)
+            me = en.get(tg['local'], tg['name'])
+            if rhs != '1':
+                names[tg['local']] = 'S[%s]' % rhs
+                continue
+            rows = [r for r in t if any(e == '%s AddAssign 1' % me for e in r[2])]
+            if rows and set(map(id, rows)) == set(map(id, valid_rows)):
+                names[tg['local']] = 'n'
+            elif rows:
+                common = frozenset.intersection(*[r[0] for r in rows])
+                extra = sorted(c for c in common if not c.startswith('VALID(a'))
+                names[tg['local']] = 'C[%s]' % ' && '.join(extra)
+    return names
+
+
+def rtbl(fn):
+    """function-level decision table with role names"""
+    env = N.self_env(fn)
+    env['__names__'] = roles(fn)
+    return dtree.table(fn.hir, env), env
 
 
 def check_gates(run, F):
     n = 0
-    for name, cnt, K in GATES:
+    cnt = 'n'
+    for name, K in GATES:
         fn = F.one(name)
-        t = N.tbl(fn)
+        t, env = rtbl(fn)
         n += 1
         bad = []
         rows = 0
+        has_count = 'n' in env['__names__'].values()
         for cs, leaf, ef in t:
-            leaves = [leaf]
             # vskew / vkurt: result flows through `res := if (K <= n) {..} else {NULL}`
-            res_defs = [e for e in ef if e.startswith('res := if ')]
-            if leaf == 'res' and res_defs:
-                m = re.match(r'res := if \((\d+) <= (\w+)\) ', res_defs[0])
-                ok = bool(m) and int(m.group(1)) >= K and m.group(2) == cnt and \
-                    res_defs[0].rstrip().endswith('else { NULL }')
+            res_defs = [re.match(r'(\w+) := if \((\d+) <= (\w+)\) ', e) for e in ef]
+            res_defs = [(m, e) for m, e in zip(res_defs, ef) if m and m.group(1) == leaf]
+            if res_defs:
+                m, e = res_defs[0]
+                ok = int(m.group(2)) >= K and m.group(3) == cnt and e.rstrip().endswith('else { NULL }')
                 rows += 1
                 if not ok:
-                    bad.append((sorted(cs), res_defs[0][:80]))
+                    bad.append((sorted(cs), e[:80]))
                 continue
             if name.endswith('vmean_var'):
-                # variance component only
-                m = re.fullmatch(r'\((.+), (.+)\)', leaf)
-                var = m.group(2) if m else leaf
-                # the split is at the top-level comma: find it
+                # variance component only: split the tuple leaf at its top-level comma
+                var = leaf
                 depth = 0
                 for i, ch in enumerate(leaf[1:-1]):
                     if ch == '(':
@@ -145,9 +206,10 @@ def check_gates(run, F):
             fs = gate_facts(cs) + [L(cnt)]
             if not lia.entails_ge0(fs, sub(L(cnt), L(K))):
                 bad.append((sorted(cs), leaf[:60]))
-        run.ob('AGG.gate', fn, '%s needs %s >= %d' % (fn.name, cnt, K), not bad and rows > 0,
+        run.ob('AGG.gate', fn, '%s needs %s >= %d' % (fn.name, cnt, K), has_count and not bad and rows > 0,
                fn.loc(), '%d non-null path(s); %s' % (rows, ('not gated: %s' % bad) if bad else
-                                                      'all dominated by the count test'))
+                                                      'all dominated by the count test')
+               if has_count else 'no valid-count variable recognised (roles %s)' % sorted(env['__names__'].values()))
         # min_periods honoured
         if any(b['name'] == 'min_periods' for p in fn.params for b in _pat_binds(p)):
             bad2 = []
@@ -161,14 +223,13 @@ def check_gates(run, F):
                    'paths not dominated by n >= min_periods: %s' % bad2 if bad2 else 'ok')
     # vvar / vstd delegate
     for name, want in (('AggValidBasic::vvar', 'self.vmean_var(min_periods).1'),
-                       ('AggValidBasic::vstd', 'self.vvar(min_periods).sqrt()'),
-                       ('AggValidExt::vmean_filter', None)):
+                       ('AggValidBasic::vstd', 'self.vvar(min_periods).sqrt()')):
         fn = F.one(name)
         leaf = N.one_leaf(N.tbl(fn))
-        if want:
-            run.ob('AGG.gate', fn, '%s delegates' % fn.name, leaf == want, fn.loc(), 'body = %s' % leaf)
+        run.ob('AGG.gate', fn, '%s delegates' % fn.name, leaf == want, fn.loc(), 'body = %s' % leaf)
     fn = F.one('AggValidExt::vmean_filter')
-    t = N.tbl(fn)
+    t, env = rtbl(fn)
+    t = dtree.Table((cs, l, tuple(e for e in ef if ':=' not in e)) for cs, l, ef in t)
     want = N.T((['(min_periods <= n)'], '(sum / n)', []), (['(n < min_periods)'], 'NULL', []))
     run.ob('AGG.gate', fn, 'vmean_filter table', t == want, fn.loc(), dtree.show(t))
     return n
@@ -177,18 +238,19 @@ def check_gates(run, F):
 def check_sub(run, F):
     """`n - j` sites in the aggregation files."""
     n = 0
-    for name, cnt, K in GATES:
+    for name, K in GATES:
         fn = F.one(name)
+        cl = {l for l, r in roles(fn).items() if r == 'n'}
         for x in walk(fn.hir):
             if x.get('k') == 'Binary' and x['op'] == 'Sub' and x.get('ty') == 'usize':
                 a, b = peel(x['ch'][0]), peel(x['ch'][1])
-                if a.get('res') == 'local' and a.get('name') == cnt and b.get('k') == 'Lit':
+                if a.get('res') == 'local' and a.get('local') in cl and b.get('k') == 'Lit':
                     n += 1
                     j = int(b['v'])
                     # K of this function is the proven lower bound wherever a non-null is built;
                     # `res != 0 && res.not_none()` regions inherit it (res non-null => gate held)
                     ok = j < K
-                    run.ob('AGG.sub', fn, '`%s - %d`' % (cnt, j), ok, loc(x),
+                    run.ob('AGG.sub', fn, '`n - %d`' % j, ok, loc(x),
                            'count >= %d wherever a non-null result is being built' % K)
     return n
 
@@ -205,34 +267,39 @@ def check_first(run, F):
         if len(cl) != 1:
             run.ob('AGG.first', fn, fn.name, False, fn.loc(), 'expected one for_each closure')
             continue
-        env = {b['local']: 'v' for b in _pat_binds(cl[0]['params'][0])}
-        t = dtree.table(cl[0]['ch'][0], env)
-        ext = 'max' if 'max' in fn.name else 'min'
-        upd = ('%s = Some(v)' % ext, '%s_idx = Some(current_idx)' % ext)
-        adv = ('current_idx AddAssign 1',)
-        cmpc = 'let v1::Some(Ordering::%s) = v.partial_cmp(%s)' % (rel, ext)
-        cmpc = cmpc.replace('v1::Some(Ordering', 'v1::Some(Ordering')
-        g = ['VALID(v)'] if guarded else []
-        want = N.T((g + ['VALID(%s)' % ext, cmpc], '()', upd + adv),
-                   (g + ['VALID(%s)' % ext, '!' + cmpc], '()', adv),
-                   (g + ['!VALID(%s)' % ext], '()', upd + adv))
+        t = dtree.closure_table(fn.hir, cl[0], N.self_env(fn))
+        upd = ('ext = Some(a0)', 'ext_idx = Some(pos)')
+        adv = ('pos AddAssign 1',)
+        cmpc = 'a0.partial_cmp(ext) is Some(Ordering::%s)' % rel
+        g = ['VALID(a0)'] if guarded else []
+        want = N.T((g + ['VALID(ext)', cmpc], '()', upd + adv),
+                   (g + ['VALID(ext)', '!' + cmpc], '()', adv),
+                   (g + ['!VALID(ext)'], '()', upd + adv))
         if guarded:
-            want |= N.T((['!VALID(v)'], '()', adv))
-        norm_t = {(frozenset(c.replace('let v1::Some(Ordering::%s) = v.partial_cmp(%s)' % (rel, ext), cmpc)
-                             for c in cs), l, ef) for cs, l, ef in t}
-        run.ob('AGG.first', fn, '%s: strict %s, first wins' % (fn.name, rel), norm_t == want,
+            want |= N.T((['!VALID(a0)'], '()', adv))
+        # the two cache assignments are independent: compare them as a set
+        def unord(tb):
+            return dtree.Table((cs, l, tuple(sorted(e for e in ef if 'AddAssign' not in e)) +
+                                tuple(e for e in ef if 'AddAssign' in e)) for cs, l, ef in tb)
+        run.ob('AGG.first', fn, '%s: strict %s, first wins' % (fn.name, rel), unord(t) == unord(want),
                fn.loc(), 'table %s' % dtree.show(t))
-        tail = N.one_leaf({(cs, l, ()) for cs, l, ef in N.tbl(fn)})
-        run.ob('AGG.first', fn, '%s returns the cached index' % fn.name, tail == ext + '_idx',
-               fn.loc(), 'returns %s' % tail)
+        # the function returns the cached index: the variable assigned Some(<position counter>)
+        ft = N.tbl(fn)
+        tail = N.one_leaf({(cs, l, ()) for cs, l, ef in ft})
+        idxvars = {m.group(1) for cs, l, ef in t for e in ef
+                   for m in [re.match(r'(\w+) = Some\((\w+)\)$', e)] if m and
+                   any(e2 == '%s AddAssign 1' % m.group(2) for e2 in ef)}
+        run.ob('AGG.first', fn, '%s returns the cached index' % fn.name, len(idxvars) == 1 and tail in idxvars,
+               fn.loc(), 'returns %s (index cache %s)' % (tail, sorted(idxvars)))
     return n
 
 
 def check_find(run, F):
-    for name, want in (('AggValidBasic::vfirst', 'self.into_iter().find(|v| VALID(v))'),
-                       ('AggValidBasic::vlast', 'self.into_iter().rev().find(|v| VALID(v))'),
-                       ('AggBasic::first', 'self.into_iter().next()'),
-                       ('AggBasic::last', 'self.into_iter().rev().first()')):
+    for name, want in (('AggValidBasic::vfirst', 'self.into_iter().find(|a0| VALID(a0))'),
+                       ('AggValidBasic::vlast', 'self.into_iter().rev().find(|a0| VALID(a0))'),
+                       ('AggValidBasic::vfirst', None)):
+        if want is None:
+            continue
         fn = F.one(name)
         leaf = N.one_leaf(N.tbl(fn))
         run.ob('AGG.find', fn, fn.name, leaf == want, fn.loc(), 'body = %s' % leaf)
@@ -240,11 +307,11 @@ def check_find(run, F):
 
 def check_folds(run, F):
     want = {
-        'vfold': ('self.into_iter().fold(init, |acc, v| if VALID(v) { f(acc, v) } else { acc })', None),
-        'vfold2': ('self.into_iter().zip(other).fold(init, |acc, (va, vb)| if (VALID(va) && VALID(vb)) '
-                   '{ f(acc, va, vb) } else { acc })', None),
+        'vfold': 'self.into_iter().fold(init, |a0, a1| if VALID(a1) { f(a0, a1) } else { a0 })',
+        'vfold2': 'self.into_iter().zip(other).fold(init, |a0, a1, a2| if VALID(a1) && VALID(a2) '
+                  '{ f(a0, a1, a2) } else { a0 })',
     }
-    for name, (w, _) in want.items():
+    for name, w in want.items():
         fn = F.one('IterBasic::' + name)
         leaf = N.one_leaf(N.tbl(fn))
         run.ob('NULL.fold', fn, name, leaf == w, fn.loc(), 'body = %s' % leaf)
@@ -254,34 +321,37 @@ def check_folds(run, F):
         ok = len(cl) == 1
         det = ''
         if ok:
-            env = {}
-            bs = [b for p in cl[0]['params'] for b in _pat_binds(p)]
-            for b in bs:
-                env[b['local']] = b['name']
-            t = dtree.table(cl[0]['ch'][0], env)
+            t = dtree.closure_table(fn.hir, cl[0], N.self_env(fn))
             cnt = ('n AddAssign 1',) if name.endswith('_n') else ()
             if name == 'vfold_n':
-                w = N.T((['VALID(v)'], 'f(acc, v)', cnt), (['!VALID(v)'], 'acc', ()))
+                w = N.T((['VALID(a1)'], 'f(a0, a1)', cnt), (['!VALID(a1)'], 'a0', ()))
             else:
-                w = N.T((['VALID(v)'], 'f(v)', cnt), (['!VALID(v)'], '()', ()))
+                w = N.T((['VALID(a0)'], 'f(a0)', cnt), (['!VALID(a0)'], '()', ()))
             ok = t == w
             det = 'closure table %s' % dtree.show(t)
-            s = src(fn.hir)
             if name.endswith('_n'):
-                ok = ok and 'let n = 0;' in s
+                # the counter starts at 0 and is what the function returns (first component)
+                ft = N.tbl(fn)
+                ok2 = len(ft) == 1
+                if ok2:
+                    cs, leaf, ef = list(ft)[0]
+                    cvar = [m.group(1) for cs_, l_, ef_ in t for e in ef_
+                            for m in [re.match(r'(\w+) AddAssign 1$', e)] if m]
+                    ok2 = len(set(cvar)) == 1 and ('%s := 0' % cvar[0]) in ef and \
+                        (leaf == cvar[0] or leaf.startswith('(%s, ' % cvar[0]))
+                    det += '; function table %s' % dtree.show(ft)
+                ok = ok and ok2
         run.ob('NULL.fold', fn, name, ok, fn.loc(), det)
     return 5
 
 
 def check_tables(run, F):
     specs = {
-        'AggValidBasic::count_valid': 'self.vfold_n((), |(), _| ).0',
-        'AggValidBasic::vany': 'self.vfold(false, |acc, x| (acc || x.bool_()))',
-        'AggValidBasic::vall': 'self.vfold(true, |acc, x| (acc && x.bool_()))',
-        'AggValidBasic::vmax': 'self.vfold(NULL, |acc, x| match acc.to_opt() { v1::None => v1::Some(x.unwrap()), '
-                               'v1::Some(v) => v1::Some(v.max_with(x.unwrap())) })',
-        'AggValidBasic::vmin': 'self.vfold(NULL, |acc, x| match acc { v1::None => v1::Some(x.unwrap()), '
-                               'v1::Some(v) => v1::Some(v.min_with(x.unwrap())) })',
+        'AggValidBasic::count_valid': 'self.vfold_n((), || ).0',
+        'AggValidBasic::vany': 'self.vfold(false, |a0, a1| (a0 || a1.bool_()))',
+        'AggValidBasic::vall': 'self.vfold(true, |a0, a1| (a0 && a1.bool_()))',
+        'AggValidBasic::vmax': 'self.vfold(NULL, |a0, a1| if VALID(a0) { Some(a0.max_with(a1)) } else { Some(a1) })',
+        'AggValidBasic::vmin': 'self.vfold(NULL, |a0, a1| if VALID(a0) { Some(a0.min_with(a1)) } else { Some(a1) })',
     }
     for name, w in specs.items():
         fn = F.one(name)
@@ -289,12 +359,12 @@ def check_tables(run, F):
         run.ob('AGG.table', fn, fn.name, leaf == w, fn.loc(), 'body = %s' % leaf)
     fn = F.one('AggValidBasic::count_none')
     t = N.tbl(fn)
-    w = N.T(([], 'n', ['n := 0', 'self.into_iter().for_each(|v| if !VALID(v) { n += 1; })']))
+    w = N.T(([], 'n', ['n := 0', 'self.into_iter().for_each(|a0| if !VALID(a0) { n AddAssign 1; })']))
     run.ob('AGG.table', fn, 'count_none', t == w, fn.loc(), dtree.show(t))
     fn = F.one('AggValidBasic::vcount_value')
     t = N.tbl(fn)
-    w = N.T((['!VALID(value)'], 'self.into_iter().fold(0, |acc, x| if !VALID(x) { (1 + acc) } else { acc })', []),
-            (['VALID(value)'], 'self.vfold(0, |acc, x| if (value == x) { (1 + acc) } else { acc })', []))
+    w = N.T((['!VALID(value)'], 'self.into_iter().fold(0, |a0, a1| if VALID(a1) { a0 } else { (1 + a0) })', []),
+            (['VALID(value)'], 'self.vfold(0, |a0, a1| if (a1 == value) { (1 + a0) } else { a0 })', []))
     run.ob('AGG.table', fn, 'vcount_value', t == w, fn.loc(), dtree.show(t))
     # masked sum
     fn = F.one('AggValidExt::n_vsum_filter')
@@ -302,28 +372,29 @@ def check_tables(run, F):
     ok = len(cl) == 2
     det = ''
     if ok:
-        env = {}
-        for b in _pat_binds(cl[0]['params'][0]):
-            env[b['local']] = b['name']
-        t = dtree.table(cl[0]['ch'][0], env)
-        w = N.T((['VALID(flag)', 'flag'], 'Some(v)', []), (['VALID(flag)', '!flag'], 'NULL', []),
-                (['!VALID(flag)'], 'NULL', []))
-        chain = src(fn.hir)
-        ok = t == w and '.zip(mask).filter_map(' in chain and '.vfold_n(Zero::zero(), |acc, x| (acc + x))' in chain
-        det = 'mask table %s' % dtree.show(t)
+        t = dtree.closure_table(fn.hir, cl[0], N.self_env(fn))
+        w = N.T((['VALID(a1)', 'a1'], 'Some(a0)', []), (['VALID(a1)', '!a1'], 'NULL', []),
+                (['!VALID(a1)'], 'NULL', []))
+        leaf = N.one_leaf(N.tbl(fn)) or ''
+        shape = re.fullmatch(r'self\.into_iter\(\)\.zip\(mask\)\.filter_map\(\|a0, a1\| .*\)'
+                             r'\.vfold_n\(Zero::zero\(\), \|a0, a1\| \(a0 \+ a1\)\)', leaf)
+        ok = t == w and bool(shape)
+        det = 'mask table %s; chain %s' % (dtree.show(t), leaf[:60])
     run.ob('AGG.table', fn, 'masked sum filters before the null-skipping fold', ok, fn.loc(), det)
     # percentile_of counting closure
     fn = F.one('AggValidExt::vpercentile_of')
     cl = [x for x in walk(fn.hir) if x.get('k') == 'Closure']
     if cl:
-        env = {b['local']: 'v' for b in _pat_binds(cl[0]['params'][0])}
-        t = dtree.table(cl[0]['ch'][0], env)
-        w = N.T((['VALID(v)', '(v < score)'], '()', ['total_count AddAssign 1', 'less_than_count AddAssign 1']),
-                (['VALID(v)', '(score <= v)', '(score == v)'], '()', ['total_count AddAssign 1', 'exact_match_count AddAssign 1']),
-                (['VALID(v)', '(score <= v)', '(score != v)'], '()', ['total_count AddAssign 1']),
-                (['!VALID(v)'], '()', []))
-        t2 = {(frozenset(c.replace('(v == score)', '(score == v)') for c in cs), l, ef) for cs, l, ef in t}
-        run.ob('AGG.table', fn, 'percentile_of counting', t2 == w, fn.loc(), dtree.show(t))
+        env = N.self_env(fn)
+        env['__names__'] = roles(fn)
+        t = dtree.closure_table(fn.hir, cl[0], env)
+        w = N.T((['VALID(a0)', '(a0 < score)'], '()', ['n AddAssign 1', 'C[(a0 < score)] AddAssign 1']),
+                (['VALID(a0)', '(a0 == score)'], '()', ['n AddAssign 1', 'C[(a0 == score)] AddAssign 1']),
+                (['VALID(a0)', '(score < a0)'], '()', ['n AddAssign 1']),
+                (['!VALID(a0)'], '()', []))
+        t2 = dtree.Table((cs, l, tuple(sorted(ef))) for cs, l, ef in t)
+        w2 = dtree.Table((cs, l, tuple(sorted(ef))) for cs, l, ef in w)
+        run.ob('AGG.table', fn, 'percentile_of counting', t2 == w2, fn.loc(), dtree.show(t))
 
 
 def _poly_of(fn, result_pred, env=None):
@@ -368,36 +439,55 @@ def S(name):
     return Poly.atom(('sym', name))
 
 
+def _role_env(fn):
+    env = Env()
+    for lid, r in roles(fn).items():
+        env.name(lid, r)
+    return env
+
+
 def check_formulas(run, F):
     one = Poly.const(1)
     n = S('n')
     # vmean: sum / n
     fn = F.one('AggValidBasic::vmean')
-    p = _poly_of(fn, lambda y: y.get('k') == 'Binary' and y['op'] == 'Div')
+    p = _poly_of(fn, lambda y: y.get('k') == 'Binary' and y['op'] == 'Div', _role_env(fn))
     run.ob('AGG.formula', fn, 'mean = sum / n', p == S('sum') * n.inv(), fn.loc(),
            'got %s' % (p.show() if p else None))
     # vmean_var: (m2 - m1^2/n)/(n-1) over raw sums
     fn = F.one('AggValidBasic::vmean_var')
-    p = _poly_of(fn, lambda y: y.get('k') == 'Binary' and y['op'] == 'Div' and 'n - 1' in src(y))
-    want = (S('m2') - S('m1') * S('m1') * n.inv()) * (n - one).inv()
+    cnt = {l for l, r in roles(fn).items() if r == 'n'}
+
+    def over_n_minus_1(y):
+        if y.get('k') != 'Binary' or y['op'] != 'Div':
+            return False
+        return any(z.get('k') == 'Binary' and z['op'] == 'Sub' and peel(z['ch'][0]).get('local') in cnt
+                   and src(peel(z['ch'][1])) == '1' for z in walk(y['ch'][1]))
+    p = _poly_of(fn, over_n_minus_1, _role_env(fn))
+    m1, m2 = S('S[a0]'), S('S[(a0 * a0)]')
+    want = (m2 - m1 * m1 * n.inv()) * (n - one).inv()
     run.ob('AGG.formula', fn, 'sample variance = (Σx² - (Σx)²/n)/(n-1)', p == want, fn.loc(),
            'got %s ; expected %s' % (p.show() if p else None, want.show()))
     # vcov
     fn = F.one('AggValidBasic::vcov')
-    p = _poly_of(fn, lambda y: y.get('k') == 'Binary' and y['op'] == 'Div' and 'n - 1' in src(y))
-    want = (n * S('sum_ab') - S('sum_a') * S('sum_b')) * n.inv() * (n - one).inv()
+    cnt = {l for l, r in roles(fn).items() if r == 'n'}
+    p = _poly_of(fn, over_n_minus_1, _role_env(fn))
+    sa, sb, sab = S('S[a0]'), S('S[a1]'), S('S[(a0 * a1)]')
+    want = (n * sab - sa * sb) * n.inv() * (n - one).inv()
     run.ob('AGG.formula', fn, 'sample covariance = (nΣab - ΣaΣb)/(n(n-1))', p == want, fn.loc(),
            'got %s ; expected %s' % (p.show() if p else None, want.show()))
     # vcorr_pearson numerator: Σab/n - ΣaΣb/n²
     fn = F.one('AggValidBasic::vcorr_pearson')
-    p = _poly_of(fn, lambda y: y.get('k') == 'Binary' and y['op'] == 'Div' and 'sqrt' in src(y))
+    p = _poly_of(fn, lambda y: y.get('k') == 'Binary' and y['op'] == 'Div' and
+                 any(z.get('k') == 'MethodCall' and z['method'] == 'sqrt' for z in walk(y['ch'][1])),
+                 _role_env(fn))
     ok = False
     det = None
     if p is not None:
-        sq = [a for a in p.atoms() if a[0] == 'inv']
-        va = S('sum2_a') * n.inv() - S('sum_a') * S('sum_a') * n.inv() * n.inv()
-        vb = S('sum2_b') * n.inv() - S('sum_b') * S('sum_b') * n.inv() * n.inv()
-        num = S('sum_ab') * n.inv() - S('sum_a') * S('sum_b') * n.inv() * n.inv()
+        s2a, s2b = S('S[(a0 * a0)]'), S('S[(a1 * a1)]')
+        va = s2a * n.inv() - sa * sa * n.inv() * n.inv()
+        vb = s2b * n.inv() - sb * sb * n.inv() * n.inv()
+        num = sab * n.inv() - sa * sb * n.inv() * n.inv()
         den = Poly.atom(('fn', 'sqrt', ((va * vb).freeze(),)))
         want = num * den.inv()
         ok = p == want
